@@ -492,9 +492,148 @@ def r6_capacity_from_window(repo=None):
     return x
 
 
+def r7_rows_start_inside_the_file(repo=None):
+    """An index row (sample S, offset) may be stored in a file only for a block that starts inside the file: S < E, where
+    E = next_global_sample + samples_left is the first sample of the *next* file (C04.R3 / C06.R6: samples_left is the
+    distance to it).  For S == E the block belongs to the next file and the row's offset equals the number of samples stored
+    in this file - an offset beyond the stored data.  Decided on the fill pass (the count pass is tied to it by R5): the path
+    condition of every store whose value contains the block start S is evaluated for the three orderings of (S, E) - the atoms
+    that compare S with E (recognised by their linear form, whatever the spelling) follow the ordering, all other atoms are
+    free - and must be false for S == E and S > E."""
+    import itertools
+    r = Rule("C06.R7", "an index row is stored only for a block that starts before the first sample of the next file")
+    tu = cfront.lib(repo)
+    F = "digital_rf_create_rf_data_index"
+    fn = tu.fn(F)
+    params = [p.name for p in fn.children if p.kind == "ParmVarDecl"]
+    for need in ("next_global_sample", "samples_left", "global_index_arr"):
+        if need not in params:
+            raise AnalysisError("%s: parameter `%s` not found" % (F, need))
+    loops = [n for n in fn.find("ForStmt")]
+    if len(loops) != 2:
+        raise AnalysisError("%s: expected 2 loops over the block description, found %d" % (F, len(loops)))
+    fill = loops[1]
+    # single-assigned locals of the function (for E) and locals assigned from global_index_arr[..] in the fill loop (S)
+    defs = {}
+    for path, node, rhs, kind in clib.stores(fn):
+        if path and kind == "=" and rhs is not None and re.match(r"^\w+$", path):
+            defs.setdefault(path, []).append((node, rhs))
+    for d in fn.find("VarDecl"):
+        if d.children and d.name:
+            init = [c for c in d.children if c.kind not in ("TypeRef",)]
+            if init:
+                defs.setdefault(d.name, []).append((d, init[-1]))
+    S = set()
+    for path, node, rhs, kind in clib.stores(fill):
+        if path and kind == "=" and rhs is not None and re.match(r"^\w+$", path):
+            t = rhs.strip(casts=True)
+            if t.kind == "ArraySubscriptExpr" and t.children[0].strip(casts=True).path() == "global_index_arr":
+                S.add(path)
+    if not S:
+        raise AnalysisError("%s: the block start (a local read from global_index_arr[i] in the fill loop) was not found" % F)
+
+    def lf(e):
+        t = e.strip(casts=True)
+        if t.kind == "ArraySubscriptExpr" and t.children[0].strip(casts=True).path() == "global_index_arr":
+            return {"<S>": 1}
+        out = clib.linform(e)
+        if out is None:
+            return None
+        res = {}
+        for k, v in out.items():
+            sub = None
+            if k in S:
+                sub = {"<S>": 1}
+            elif isinstance(k, str) and k in defs and len(defs[k]) == 1 and k not in params:
+                sub = lf(defs[k][0][1])
+            if sub is None:
+                sub = {k: 1}
+            for kk, vv in sub.items():
+                res[kk] = res.get(kk, 0) + vv * v
+        return {k: v for k, v in res.items() if v != 0}
+    D = {"<S>": 1, "next_global_sample": -1, "samples_left": -1}      # S - E
+
+    def classify(cmp):
+        """+1 if lhs - rhs == S - E, -1 if == E - S, else 0"""
+        a, b = lf(cmp.children[0]), lf(cmp.children[1])
+        if a is None or b is None:
+            return 0
+        d = dict(a)
+        for k, v in b.items():
+            d[k] = d.get(k, 0) - v
+        d = {k: v for k, v in d.items() if v != 0}
+        if d == D:
+            return 1
+        if d == {k: -v for k, v in D.items()}:
+            return -1
+        return 0
+
+    sites = []
+    for path, node, rhs, kind in clib.stores(fill):
+        if kind != "=" or rhs is None or path is None or re.match(r"^\w+$", path):
+            continue
+        v = lf(rhs)
+        if v and v.get("<S>") == 1:
+            sites.append((path, node))
+    if not sites:
+        raise AnalysisError("%s: no store of the block start into the returned rows found in the fill loop" % F)
+    for path, node in sites:
+        # atoms of the path condition that compare S with E
+        sem = {}
+        for a in node.ancestors():
+            if a is fill:
+                break
+            if a.kind in ("IfStmt", "ConditionalOperator"):
+                for c in a.children[0].walk():
+                    if c.kind == "BinaryOperator" and c.opcode in ("<", ">", "<=", ">=", "==", "!="):
+                        o = classify(c)
+                        if o == 0:
+                            continue
+                        ta, tb = cbool._text(c.children[0].strip(casts=True), {}), cbool._text(c.children[1].strip(casts=True), {})
+                        if c.opcode in (">", "<="):
+                            sem["%s>%s" % (ta, tb)] = "gt" if o == 1 else "lt"      # atom lhs>rhs
+                        elif c.opcode in ("<", ">="):
+                            sem["%s>%s" % (tb, ta)] = "lt" if o == 1 else "gt"      # atom rhs>lhs
+                        else:
+                            x, y = sorted([ta, tb])
+                            sem["%s==%s" % (x, y)] = "eq"
+        f = cbool.path_condition(node, fill)
+        names = sorted(cbool.atoms(f))
+        free = [n for n in names if n not in sem]
+        if len(free) > 14:
+            raise AnalysisError("%s: row condition too large" % F)
+        bad = None
+        for order in ("eq", "gt"):
+            for bits in itertools.product((False, True), repeat=len(free)):
+                val = dict(zip(free, bits))
+                for n_, meaning in sem.items():
+                    val[n_] = (meaning == order)
+                if cbool.ev(f, val):
+                    bad = (order, val)
+                    break
+            if bad:
+                break
+        site = "%s:%s %s store `%s`" % (LIB, node.line, F, norm(node.nsrc)[:60])
+        if bad is None and sem:
+            r.ok(site, "stored only when the block start is below next_global_sample + samples_left (condition %s)" % cbool.show(f))
+        elif bad is None:
+            r.ok(site, "condition %s is unsatisfiable for a block start at or beyond the end of the file" % cbool.show(f))
+        else:
+            r.violation(LIB, F, "row store `%s` under %s" % (norm(node.nsrc)[:60], cbool.show(f)),
+                        "a row is stored for a block whose first sample %s next_global_sample + samples_left, the first sample of the "
+                        "next file (%s): the block lies wholly in the next file, the row's sample is outside this file's window and its "
+                        "offset is %s the number of samples stored" % (
+                            "equals" if bad[0] == "eq" else "exceeds",
+                            ", ".join("%s=%d" % (k, v) for k, v in sorted(bad[1].items())), "equal to" if bad[0] == "eq" else "beyond"),
+                        line=node.line)
+    r.guard(1)
+    return r
+
+
 def rules(repo=None):
     return [lambda: r1_attribute_tables(repo), lambda: r2_write_once(repo), lambda: r3_metadata_in_every_file(repo),
-            lambda: r4_regeneration_source(repo), lambda: r5_index_passes_agree(repo), lambda: r6_capacity_from_window(repo)]
+            lambda: r4_regeneration_source(repo), lambda: r5_index_passes_agree(repo), lambda: r6_capacity_from_window(repo),
+            lambda: r7_rows_start_inside_the_file(repo)]
 
 
 EXPLANATION = (
@@ -508,7 +647,7 @@ EXPLANATION = (
     "file does not exist and its glob matches every finalized RF file name and no tmp. name. R5: the counting pass and the filling "
     "pass of digital_rf_create_rf_data_index add a row under the same predicates. R6 (= C04.R3): the file's capacity and the room "
     "left in it are differences of two boundary samples obtained by the ceil helper from the printed name time and that time plus "
-    "one file cadence. Does NOT decide index row contents.")
-TECHNIQUE = ('clang JSON AST + Python ast; attribute table extraction through forwarding helpers and 4-way comparison; truth-table equivalence of the two index passes; write-once field stores; glob/regex language inclusion')
+    "one file cadence. R7: a row is stored only for a block that starts before next_global_sample + samples_left, the first sample of the next file (the row condition of the fill pass is evaluated for the orderings 'block start == / > end of file'; atoms comparing the two are recognised by their linear form). Does NOT decide the other index row contents.")
+TECHNIQUE = ('clang JSON AST + Python ast; attribute table extraction through forwarding helpers and 4-way comparison; truth-table equivalence of the two index passes; order-theoretic evaluation of the row condition (atoms classified by linear form); write-once field stores; glob/regex language inclusion')
 ASSUMPTIONS = ["HDF5 attribute API semantics", "clang 14 AST and CPython ast are faithful"]
 FILES = [C_LIB, "python/digital_rf/digital_rf_hdf5.py", "python/digital_rf/list_drf.py"]
